@@ -146,4 +146,10 @@ def split (x : SShape) (d n : Nat) : Option SShape :=
 def batchSplit (x : SShape) (n : Nat) : Option SShape :=
   if n = 0 ∨ x.batch % n ≠ 0 then none else setBatch x (x.batch / n)
 
+/-- dense softmax cross entropy: logits and targets have the same dimensions (batches broadcast),
+the result drops axis `dim` to size 1 -/
+def softmaxCrossEntropy (x t : SShape) (dim : Nat) : Option SShape := do
+  let y ← elementwise x t
+  setDim y dim 1
+
 end Primitiv.Spec
